@@ -40,7 +40,8 @@ type absCase struct {
 }
 
 // concrete step. Placeholders resolved by the child (it owns the listeners):
-// @SINK@ @SINK2@ @SINK3@ tcp sinks, @HTTP@ grafana.net endpoint, @SCHEMAS@ @AGGS@ files.
+// @SINK@ @SINK2@ @SINK3@ tcp sinks, @HTTP@ grafana.net endpoint (http://host:port/metrics), @HTTPHOST@ the same
+// without the path, @SCHEMAS@ @AGGS@ files.
 type step struct {
 	Kind   string   `json:"kind"` // cmd | item
 	Cmd    *absCmd  `json:"cmd,omitempty"`
@@ -383,6 +384,73 @@ var gnetCmdName = map[string]string{"concurrency": "concurrency", "bufSize": "bu
 	"flushMaxWait": "flushMaxWait", "timeout": "timeout", "errBackoffMin": "errBackoffMin", "errBackoffFactor": "errBackoffFactor",
 	"sslverify": "sslverify", "spool": "spool", "blocking": "blocking"}
 
+// the grafanaNet addr of a URL-shape class (AdminOps!AddrClasses); cmd: a command token cannot contain a space
+func (r rnd) gnetAddr(cls string, cmd bool) string {
+	switch cls {
+	case "withquery":
+		return "@HTTP@" + r.pick([]string{"?x=1", "?", "/?a=b&c=d", "?org=1&debug", "?x=/metrics/y"})
+	case "withfragment":
+		return "@HTTP@" + r.pick([]string{"#frag", "#", "/#a", "#/x", "#metrics"})
+	case "pctencoded":
+		return r.pick([]string{"@HTTPHOST@/%6Detrics", "@HTTP@%2F", "@HTTPHOST@/graphite/metric%73", "@HTTPHOST@/metrics%2f"})
+	case "trailingslash":
+		return "@HTTP@/"
+	case "notaurl":
+		l := []string{"127.0.0.1:80", "http://", "/metrics", "%zz", "http://[::1/metrics", "metrics", "//127.0.0.1/metrics", "localhost/metrics", "http:///metrics", "http:metrics"}
+		if !cmd {
+			l = append(l, "http://a b/metrics", " @HTTP@", "@HTTP@\n")
+		}
+		return r.pick(l)
+	}
+	// pathnotmetrics
+	return r.pick([]string{"@HTTPHOST@/foo", "@HTTPHOST@", "@HTTPHOST@/", "@HTTP@x", "@HTTP@/x", "@HTTPHOST@/metrics/api", "@HTTPHOST@/Metrics", "@HTTP@//", "@HTTPHOST@/?/metrics", "@HTTPHOST@/x#/metrics"})
+}
+
+// the top-level configuration (TOML) of a bad_metrics_max_age class (AdminOps!MaxAgeClasses)
+func (r rnd) config(c *absCmd) string {
+	var b strings.Builder
+	// typical settings around it, as in the example configuration
+	if r.Intn(2) == 0 {
+		b.WriteString("instance = \"verif\"\n")
+	}
+	if r.Intn(3) == 0 {
+		b.WriteString("validation_level_legacy = " + tomlStr(r.pick([]string{"strict", "medium", "none"})) + "\n")
+	}
+	if r.Intn(3) == 0 {
+		b.WriteString("validation_level_m20 = " + tomlStr(r.pick([]string{"medium", "none"})) + "\n")
+	}
+	if r.Intn(3) == 0 {
+		b.WriteString("validate_order = " + r.pick([]string{"true", "false"}) + "\n")
+	}
+	v, present, quoted := "", true, true
+	switch c.Val {
+	case "zero":
+		v = r.pick([]string{"0s", "0", "0h", "0ms", "-0s", "+0s", "0h0m0s", "0.0s", "0ns"})
+	case "tiny": // positive, but a tenth of it is less than a nanosecond
+		v = r.pick([]string{"1ns", "5ns", "9ns", "0.009us", "0.000000003s", "9.9ns", "0h0m0.000000007s"})
+	case "neg":
+		v = r.pick([]string{"-1h", "-24h", "-5s", "-1ns", "-100ms", "-10ns", "-2562047h", "-0.5h"})
+	case "nonnum":
+		switch r.Intn(8) {
+		case 0:
+			present = false
+		case 1:
+			v, quoted = r.pick([]string{"24", "3600", "1.5", "true", "-1"}), false // wrong TOML type
+		default:
+			v = r.pick([]string{"abc", "24", "1d", "", "24 h", "h", "1h1", "1e3s", "1w", "24H", "\u221e", "1h 30m", "0x10s", ".s", "--1h", "9223372036854775808ns", "3000000h"})
+		}
+	default: // typical
+		v = r.pick([]string{"24h", "1h", "90m", "10s", "1h30m", "100ms", "250us", "48h", "1ms", "0.5h", "2562047h"})
+	}
+	if present {
+		b.WriteString(tomlKV("bad_metrics_max_age", v, true, quoted))
+	}
+	if r.Intn(3) == 0 {
+		b.WriteString("max_procs = 2\n")
+	}
+	return b.String()
+}
+
 func (r rnd) addGnet(c *absCmd, key string) string {
 	pos := map[string]string{"addr": "@HTTP@", "apikey": "secretkey", "schemas": "@SCHEMAS@", "aggfile": "@AGGS@"}
 	present := map[string]bool{"addr": true, "apikey": true, "schemas": true, "aggfile": true}
@@ -400,6 +468,8 @@ func (r rnd) addGnet(c *absCmd, key string) string {
 			}
 		case "huge":
 			pos[c.Opt] = r.long(5000)
+		case "withquery", "withfragment", "pctencoded", "trailingslash", "notaurl", "pathnotmetrics":
+			pos[c.Opt] = r.gnetAddr(c.Val, c.Via == "cmd")
 		}
 	}
 	// optional numeric settings; typical ones keep memory small
@@ -1189,6 +1259,8 @@ func concretise(seed int64, ac absCase) concCase {
 			st.ApiKey = key
 		case "garbage":
 			st.Text = r.garbageCmd(&c)
+		case "config":
+			st.Text = r.config(&c)
 		}
 		cc.Steps = append(cc.Steps, st)
 	}
